@@ -356,6 +356,11 @@ pub mod stats;
 pub mod traits;
 mod without_dealloc;
 
+// Verification hook (guard: cfg(kani), set only by `cargo kani`): in-crate proof harnesses.
+#[cfg(kani)]
+#[path = "/verif/kani/incrate/mod.rs"]
+mod verif_kani;
+
 pub use bump::Bump;
 pub use bump_box::BumpBox;
 pub use bump_claim_guard::BumpClaimGuard;
